@@ -60,6 +60,14 @@ static int64_t atomic_dec(struct tq *q, int64_t *p)
   VX_ASSERT(QINV(q), "ledger: counter >= entries after the decrement");
   return *p;
 }
+/* a plain store to the shared counter: the other workers / wakers may have moved it since this call read it */
+static void atomic_store_i64(struct tq *q, int64_t *p, int64_t v)
+{
+  q_interfere(q);
+  VX_ASSERT(g_owed >= 1 && *p - v == 1, "a store to the shared counter takes away exactly the one entry this call removed -- it must not overwrite what other threads added since the counter was read");
+  *p = v; if (g_owed >= 1) g_owed--; BUMP(g_decs);
+  VX_ASSERT(QINV(q), "ledger: counter >= entries after the store");
+}
 /* work_items_.push(thread_data*, other_end): always succeeds (unbounded lock-free queue) */
 static bool wi_push(struct tq *q, thread_description_ptr d, bool other_end)
 {
